@@ -148,6 +148,46 @@ theorem disk_write_in_partition (tbl : Option (List P)) (idx : Int) (chunks : Li
       p.byteStart ≤ w.off ∧ w.off + w.data.length ≤ p.byteStart + p'.byteSize :=
   diskWrite_in_partition tbl idx chunks w hw
 
+/-- a partition VALUE handed DIRECTLY to Partition.WriteContents (no Disk, no table lookup), in every spelling
+    (Start+End, Start+Size with End = 0, all three fields, contradictory ones; stamped or not): fields that do not
+    reconcile are refused before anything is written; otherwise every WriteAt lies inside the byte range of the
+    partition as the switch leaves it — whatever the reader supplies, however much too long —, success iff exactly
+    that many bytes were supplied, on success the range holds the supplied bytes, and no byte outside it changes -/
+theorem part_write_direct (d : Dev) (p : P) (chunks : List Bytes) :
+    (reconcile p = none → partWrite p chunks = none) ∧
+    (∀ p', reconcile p = some p' → ∃ r, partWrite p chunks = some (r, p') ∧
+        (∀ w ∈ r.ws, p.byteStart ≤ w.off ∧ w.off + w.data.length ≤ p.byteStart + p'.byteSize) ∧
+        (r.ok = true ↔ (chunks.map List.length).sum = p'.byteSize) ∧
+        (r.ok = true → readAt (applyWrs d r.ws) p.byteStart p'.byteSize = chunks.flatten) ∧
+        (∀ i, i < p.byteStart ∨ p.byteStart + p'.byteSize ≤ i → applyWrs d r.ws i = d i)) := by
+  refine ⟨fun h => by simp [partWrite, h], fun p' hr => ?_⟩
+  have hb : p'.byteStart = p.byteStart := (reconcile_spec p p' hr).2.2.2.2.2.1
+  refine ⟨writeContents p'.byteStart p'.byteSize chunks, by simp [partWrite, hr], ?_, ?_, ?_, ?_⟩
+  · intro w hw
+    have := write_in_partition p'.byteStart p'.byteSize chunks w hw
+    rw [hb] at this; exact this
+  · exact write_ok_iff _ _ _
+  · intro hok; rw [← hb]; exact write_effect d _ _ _ hok
+  · intro i hi; rw [← hb] at hi; exact write_frame d _ _ _ i hi
+
+/-- the Start+Size spelling (End = 0, Size a positive multiple of the sector size): accepted, and the bound of the
+    write loop is the entry's own Size — not the size computed from End, which has wrapped in uint64 (End - Start + 1
+    with End = 0); End is assigned Start + Size/lss - 1 -/
+theorem start_size_spelling (p : P) (hk : p.kind = .gpt) (he : p.end_ = 0) (hs : 0 < p.size)
+    (hm : p.size % p.lssOf = 0) :
+    ∃ p', reconcile p = some p' ∧ p'.byteSize = p.size ∧ p'.byteStart = p.byteStart ∧
+      (p.size ≠ calcSize p → p'.end_ = (p.start + p.size / p.lssOf + two64 - 1) % two64) := by
+  by_cases hc : p.size = calcSize p
+  · refine ⟨p, ?_, byteSize_gpt p hk, rfl, fun h => absurd hc h⟩
+    simp only [reconcile, hk]
+    rw [if_pos ⟨hs, hc⟩]
+  · have h2 : ¬ (p.size = 0 ∧ p.end_ ≥ p.start) := by omega
+    refine ⟨{ p with end_ := (p.start + p.size / p.lssOf + two64 - 1) % two64 }, ?_, ?_, ?_, fun _ => rfl⟩
+    · simp only [reconcile, hk]
+      rw [if_neg (by intro h; exact hc h.2), if_neg h2, if_pos ⟨hs, hm, he⟩]
+    · simp [P.byteSize, hk]
+    · simp [P.byteStart, P.lssOf]
+
 /-- no table, no such index (index 0, out of range, unused slot) or irreconcilable fields: nothing is written -/
 theorem disk_write_refused_writes_nothing (ps : List P) (idx : Int) (chunks : List Bytes) :
     (diskWrite none idx chunks).ws = [] ∧
@@ -292,6 +332,13 @@ theorem facts_agree_dispatch :
   decide
 
 /-! non-vacuity: concrete instances meeting the hypotheses -/
+-- Start+Size spelling handed directly to WriteContents, reader oversupplying by several chunks: refused at the
+-- first chunk that would cross the partition's end (2 sectors at LBA 2048; 4-byte sectors keep `decide` small),
+-- nothing written beyond it, End assigned
+example : (partWrite ⟨.gpt, 1, 2048, 0, 8, 4, 4⟩ [[1,2,3,4], [5,6,7,8], [9,9,9,9], [9,9,9,9]]).map
+    (fun x => (x.1.ws.map (fun w => (w.off, w.data.length)), x.1.total, x.1.ok, x.2.end_)) =
+    some ([(8192, 4), (8196, 4)], 8, false, 2049) := by decide
+example : (8 : Nat) ≠ calcSize ⟨.gpt, 1, 2048, 0, 8, 4, 4⟩ := by decide
 example : (writeContents 5368709120 6 [[1,2,3], [], [4,5,6]]).ok = true := by decide
 example : (writeContents 10 4 [[1,2,3]]).ok = false := by decide
 example : (writeContents 10 4 [[1,2,3],[4,5]]).ok = false := by decide
